@@ -212,5 +212,7 @@ def eval_point(pt, R):
             if ok2:
                 ok2, why = peak_ok(pp, true_bins, nf)
             R.check(ok2, 'class_peaks', feats, pt, pp, None, 'pmusic/pev: true frequencies do not dominate on the reported two-sided axis')
+            R.check(np.asarray(o.eigenvalues).shape == sref.shape and close(np.asarray(o.eigenvalues), sref, 1e-9, 1e-12 * sref[0]), 'singular_values', dict(feats, form='class'), pt,
+                    o.eigenvalues, sref, 'pmusic/pev.eigenvalues are not the singular values of the forward-backward data matrix')
         except Exception as e:
             R.viol('class_peaks', dict(feats, exc=type(e).__name__), pt, repr(e), None, 'class raised inside its domain')
